@@ -20,15 +20,20 @@ import (
 // simulated CAS (one write may fail first, the cutter would then retry the same operations) and is read back by
 // an independent operation provider. The writer's scheduling plays no part here (worlds W-M1/W-M2 cover it with
 // small batches); what this adds is the size dimension those worlds cannot afford.
-func runLargeBatch(rc *RunCtx) *RunResult {
+func runLargeBatch(rc *RunCtx) *RunResult { return runLargeBatchFor(rc, "C13") }
+
+// runLargeBatchFor: for C13 the batch is written and read back; for C15 it is additionally handed to the real
+// transaction processor over a simulated operation store whose writes may fail: one all-or-nothing write per
+// transaction, every operation stamped.
+func runLargeBatchFor(rc *RunCtx, prop string) *RunResult {
 	k := rc.K
-	k.PanicProp = "C13"
-	k.Props = map[string]bool{"C13": true}
+	k.PanicProp = prop
+	k.Props = map[string]bool{prop: true}
 	T := k.T
 	start := time.Now()
 
 	fail := func(oracle, detail string) {
-		k.Fail(&simkit.Violation{Property: "C13", Oracle: oracle, Detail: detail, Fingerprint: "C13/" + oracle})
+		k.Fail(&simkit.Violation{Property: prop, Oracle: oracle, Detail: detail, Fingerprint: prop + "/" + oracle})
 	}
 
 	// size: mostly two and three digits, sometimes four, rarely five (a five-digit batch costs seconds)
@@ -44,7 +49,7 @@ func runLargeBatch(rc *RunCtx) *RunResult {
 	}
 
 	n := base - 1 + T.Draw(3, "large.offset") // one below, at, one above the boundary
-	atMax := T.Draw(2, "large.atmax") == 0     // the batch is exactly the configured maximum, or the maximum is larger
+	atMax := T.Draw(2, "large.atmax") == 0    // the batch is exactly the configured maximum, or the maximum is larger
 
 	p := simenv.DefaultProtocol(0)
 	p.MaxOperationCount = uint(n)
@@ -77,7 +82,24 @@ func runLargeBatch(rc *RunCtx) *RunResult {
 		return nil
 	}
 
-	v := simenv.NewVersion(p, &simenv.VersionDeps{CAS: cas})
+	store := simenv.NewOpStore(k, "")
+	putFailAt := -1
+
+	if prop == "C15" && rc.Opt["faultfree"] != "1" {
+		putFailAt = T.Draw(4, "large.putfail") - 1 // -1: no store fault; otherwise the index of the failing write
+	}
+
+	store.PutFault = func(i int) error {
+		if i == putFailAt {
+			k.Count("fault:store.perr")
+
+			return errors.New("injected store write failure")
+		}
+
+		return nil
+	}
+
+	v := simenv.NewVersion(p, &simenv.VersionDeps{CAS: cas, OpStore: store})
 	checker := txnprovider.NewOperationProvider(p, operationparser.New(p), cas, simenv.NewCompressionProxy(nil))
 
 	// workload: one operation per DID, all four types
@@ -265,6 +287,66 @@ func runLargeBatch(rc *RunCtx) *RunResult {
 
 	k.Count("probe:readback-ok")
 	k.Count(fmt.Sprintf("probe:large-batch-%d-digits", len(fmt.Sprint(n))))
+
+	if prop == "C15" {
+		t.TransactionNumber = 7
+		t.EquivalentReferences = []string{"eref0-a", "eref0-b"}
+
+		// the observer would hand the transaction to the processor once; after a failed attempt a redelivery may follow
+		for attempt := 0; attempt < 2; attempt++ {
+			before := len(store.Puts)
+			_, perr := v.TxProcessor.Process(*t)
+
+			Heartbeat()
+
+			stored := store.Ops
+			total := 0
+
+			for _, l := range stored {
+				total += len(l)
+			}
+
+			if perr != nil {
+				if total != 0 {
+					fail("store/partial-txn", fmt.Sprintf("processing a transaction of %d operations failed (%s), yet %d of its operations are in the operation store", n, simkit.FirstLine(perr.Error()), total))
+
+					return finish()
+				}
+
+				k.Count("probe:failed-large-txn-left-nothing")
+
+				continue
+			}
+
+			if len(store.Puts)-before != 1 {
+				fail("store/several-writes", fmt.Sprintf("a transaction of %d operations was stored with %d separate writes", n, len(store.Puts)-before))
+
+				return finish()
+			}
+
+			if total != n {
+				fail("store/content", fmt.Sprintf("a transaction of %d operations for %d distinct DIDs left %d operations in the store", n, n, total))
+
+				return finish()
+			}
+
+			for sfx, l := range stored {
+				o := l[0]
+				if len(l) != 1 || o.TransactionTime != t.TransactionTime || o.TransactionNumber != t.TransactionNumber || o.ProtocolVersion != t.ProtocolVersion ||
+					o.CanonicalReference != t.CanonicalReference || fmt.Sprint(o.EquivalentReferences) != fmt.Sprint(t.EquivalentReferences) {
+					fail("store/stamp", fmt.Sprintf("operation for %s stored %d time(s), stamped t=%d n=%d v=%d cref=%q eref=%v; the transaction is t=%d n=%d v=%d cref=%q eref=%v", sfx, len(l),
+						o.TransactionTime, o.TransactionNumber, o.ProtocolVersion, o.CanonicalReference, o.EquivalentReferences,
+						t.TransactionTime, t.TransactionNumber, t.ProtocolVersion, t.CanonicalReference, t.EquivalentReferences))
+
+					return finish()
+				}
+			}
+
+			k.Count("probe:large-txn-stored")
+
+			break
+		}
+	}
 
 	return finish()
 }
